@@ -95,6 +95,7 @@ Definition eval_args (env:list (str*value)) (pn:list str) (a:arguments)
                match l with
                | [] => Ok acc
                | (k, KV v) :: l' => do x <- eval_val env pn v; go l' (dict_set k x acc)
+               | (k, KL []) :: l' => go l' acc          (* an empty list drops the keyword (pinned by the test-suite) *)
                | (k, KL vs) :: l' => do xs <- mapM (eval_val env pn) vs; go l' (dict_set k (VList xs) acc)
                end) (akw a) [];
   Ok (ps, kws).
